@@ -39,6 +39,11 @@ type CB struct {
 	Answers     bool   `json:"answers,omitempty"` // the callback types Answer + return to the device
 	Answer      string `json:"answer,omitempty"`
 	NilFunc     bool   `json:"nil_func,omitempty"` // no function at all (only with Complete)
+	// FailRun > 0: the FailRun-th run of this callback object's function returns an error.
+	// FailKind: "own" (validation error after its writes), "own-early" (before writing anything),
+	// "write" (the transport fails the second write of the answer, i.e. the return character).
+	FailRun  int    `json:"fail_run,omitempty"`
+	FailKind string `json:"fail_kind,omitempty"`
 }
 
 // Desc is a complete case descriptor.
@@ -230,16 +235,55 @@ func kind(cb CB) string {
 // ---- runner ------------------------------------------------------------------------------------
 
 type firing struct {
-	Idx   int    `json:"callback"`
-	Arg   string `json:"argument"`
-	reads int
-	tRet  time.Time
+	Idx    int    `json:"callback"`
+	Arg    string `json:"argument"`
+	Failed string `json:"returned_error,omitempty"`
+	reads  int
+	tRet   time.Time
+	err    error // what the function returned
 }
 
 type recorder struct {
 	mu      sync.Mutex
 	readT   []time.Time
 	firings []firing
+	entered map[int]int // runs per callback object, counted inside the functions
+}
+
+var errValidation = errors.New("c18: callback's own validation failed")
+
+// errWriteFault is the one-shot transport write error injected half-way through a callback's writes.
+var errWriteFault = errors.New("c18: write: connection glitch (injected, one-shot)")
+
+// faultConn wraps the transport model with a one-shot write fault: once armed with n, the n-th
+// write from then on fails without reaching the device, which drops the partial input line.
+type faultConn struct {
+	*devsim.Conn
+	mu  sync.Mutex
+	arm int
+	dev *device
+}
+
+func (f *faultConn) armNth(n int) {
+	f.mu.Lock()
+	f.arm = n
+	f.mu.Unlock()
+}
+
+// Write implements transport.Implementation.
+func (f *faultConn) Write(b []byte) error {
+	f.mu.Lock()
+	hit := false
+	if f.arm > 0 {
+		f.arm--
+		hit = f.arm == 0
+	}
+	f.mu.Unlock()
+	if hit {
+		f.Conn.Do(func() { f.dev.buf = nil })
+		return errWriteFault
+	}
+	return f.Conn.Write(b)
 }
 
 const (
@@ -281,7 +325,8 @@ func runOnce(d Desc) (mon.Result, bool) {
 	}
 	dev := &device{d: &d, seen: map[string]int{}}
 	conn := devsim.NewConn(dev, devsim.Config{Seg: d.Seg, KeepData: true})
-	rec := &recorder{}
+	rec := &recorder{entered: map[int]int{}}
+	fconn := &faultConn{Conn: conn, dev: dev}
 	conn.OnEvent = func(e devsim.Event) {
 		if e.Kind == "read" {
 			rec.mu.Lock()
@@ -291,7 +336,7 @@ func runOnce(d Desc) (mon.Result, bool) {
 	}
 	defer conn.Abandon()
 	drv, err := generic.NewDriver("dev",
-		options.WithCustomTransport(conn),
+		options.WithCustomTransport(fconn),
 		options.WithTransportReadSize(d.ReadSize),
 		options.WithReadDelay(time.Duration(d.ReadDelayUs)*time.Microsecond),
 		options.WithTimeoutOps(30*time.Second),
@@ -321,13 +366,28 @@ func runOnce(d Desc) (mon.Result, bool) {
 				nreads := len(rec.readT)
 				rec.firings = append(rec.firings, firing{Idx: i, Arg: s, reads: nreads})
 				k := len(rec.firings) - 1
+				rec.entered[i]++
+				fail := cb.FailRun > 0 && rec.entered[i] == cb.FailRun
 				rec.mu.Unlock()
 				var werr error
-				if cb.Answers {
+				switch {
+				case fail && cb.FailKind == "own-early":
+					werr = errValidation
+				case cb.Answers:
+					if fail && cb.FailKind == "write" {
+						fconn.armNth(2) // the answer gets out, its return character does not
+					}
 					werr = gd.Channel.WriteAndReturn([]byte(cb.Answer), false)
+				}
+				if fail && werr == nil {
+					werr = errValidation
 				}
 				rec.mu.Lock()
 				rec.firings[k].tRet = time.Now()
+				rec.firings[k].err = werr
+				if werr != nil {
+					rec.firings[k].Failed = werr.Error()
+				}
 				rec.mu.Unlock()
 				return werr
 			}
@@ -369,7 +429,7 @@ func runOnce(d Desc) (mon.Result, bool) {
 	}
 
 	timeout := time.Duration(d.TimeoutMs) * time.Millisecond
-	j := &judge{d: &d, trigs: trigs, tCase: tCase, fired: map[int]int{},
+	j := &judge{d: &d, trigs: trigs, tCase: tCase, fired: map[int]int{}, failedOnce: map[int]bool{},
 		obs: map[string]int64{"cases": 1}, tags: map[string]bool{}}
 	for _, cb := range d.CBs {
 		if cb.nonASCIITrigger() {
@@ -418,7 +478,7 @@ func runOnce(d Desc) (mon.Result, bool) {
 			res.Events = map[string]interface{}{"round": round, "first_chunk_of_round": j.base, "firings": clipFirings(firings), "chunks": clipChunks(j.chunks),
 				"transport": tail(log, 40), "error": fmt.Sprint(opErr)}
 		}
-		if res.Verdict != mon.Held || opErr != nil {
+		if res.Verdict != mon.Held || (opErr != nil && j.outcome != "callback-error") {
 			break
 		}
 		if round > 0 {
@@ -481,8 +541,10 @@ type judge struct {
 
 	// across the operations of one session
 	base       int         // chunk boundary at which the current operation's chunks start
-	fired      map[int]int // how often each callback object has run
-	completeAt int
+	fired      map[int]int // how often each callback object has run (function entered), whatever it returned
+	failedOnce map[int]bool // once callbacks whose first run returned an error
+	completeAt int         // boundary up to which the operation consumed the queue (complete / callback error)
+	outcome    string
 }
 
 type evalRes struct {
@@ -670,6 +732,13 @@ func (j *judge) judge(haveResp bool, result string, opErr error) mon.Result {
 		if completeAt >= 0 {
 			return j.bad("c18/ran-after-complete", "firing %d (callback %d) after a complete callback had run", fi, f.Idx)
 		}
+		if fi > 0 && j.firings[fi-1].err != nil {
+			return j.bad("c18/ran-after-callback-error", "firing %d (callback %d) although the previous callback function had returned %v", fi, f.Idx, j.firings[fi-1].err)
+		}
+		if f.err != nil && cb.Once && fired[f.Idx] == 0 {
+			j.obs["once_callbacks_whose_first_run_failed"]++
+			j.failedOnce[f.Idx] = true
+		}
 		fired[f.Idx]++
 		j.noteFired(cb, e2 == e && fi > 0)
 		if cb.nonASCIITrigger() {
@@ -699,7 +768,21 @@ func (j *judge) judge(haveResp bool, result string, opErr error) mon.Result {
 
 	inconclusive := ""
 	outcome := ""
+	j.outcome = ""
+	var lastFailed *firing
+	if nf := len(j.firings); nf > 0 && j.firings[nf-1].err != nil {
+		lastFailed = &j.firings[nf-1]
+	}
 	switch {
+	case lastFailed != nil:
+		// the function returned an error: the operation ends with that very error
+		outcome = "callback-error"
+		if opErr == nil || !errors.Is(opErr, lastFailed.err) {
+			return j.bad("c18/callback-error-not-returned", "callback %d returned %v but the operation returned %v", lastFailed.Idx, lastFailed.err, opErr)
+		}
+		j.completeAt = e
+		j.obs["operations_ended_by_a_callback_error"]++
+		j.tags["callback-error:"+d.CBs[lastFailed.Idx].FailKind] = true
 	case opErr == nil:
 		outcome = "complete"
 		if !haveResp {
@@ -814,6 +897,10 @@ func (j *judge) judge(haveResp bool, result string, opErr error) mon.Result {
 			}
 			if d.CBs[r.first].Once && fired[r.first] > 0 {
 				ok = true
+				if j.failedOnce[r.first] {
+					j.obs["once_errors_for_callbacks_whose_first_run_failed"]++
+					j.tags["once-error-after-failed-first-run"] = true
+				}
 				j.noteEval(r)
 				if e2 == e {
 					j.tags["once-error-on-retained-output"] = true
@@ -837,6 +924,7 @@ func (j *judge) judge(haveResp bool, result string, opErr error) mon.Result {
 	if inconclusive != "" {
 		return mon.Result{Verdict: mon.Inconclusive, Detail: inconclusive, Obs: j.obs}
 	}
+	j.outcome = outcome
 	j.tags["family="+d.Family] = true
 	j.tags["outcome="+outcome] = true
 	j.tags["family/outcome="+d.Family+"/"+outcome] = true
@@ -913,7 +1001,7 @@ func clip(s string) string {
 func clipFirings(f []firing) []firing {
 	o := make([]firing, len(f))
 	for i, x := range f {
-		o[i] = firing{Idx: x.Idx, Arg: clip(x.Arg)}
+		o[i] = firing{Idx: x.Idx, Arg: clip(x.Arg), Failed: x.Failed}
 	}
 	if len(o) > 12 {
 		o = o[:12]
